@@ -22,7 +22,7 @@ GXX_FLAGS = ['-std=c++11', '-DHAVE_CONFIG_H', '-DABIGAIL_ROOT_SYSTEM_LIBDIR="/us
 
 
 def sh(cmd, **kw):
-    return subprocess.run(cmd, stdout=subprocess.PIPE, stderr=subprocess.PIPE, text=True, **kw)
+    return subprocess.run(cmd, stdout=subprocess.PIPE, stderr=subprocess.PIPE, text=True, errors='replace', **kw)
 
 
 def _hash_files(paths, extra=''):
@@ -40,11 +40,12 @@ def real_objects(ROOT, REPO, spec, bdir, hdr_hash):
     srcs = [os.path.join(REPO, s) for s in spec.get('sources', [])]
     if spec.get('wrap'):
         srcs.append(os.path.join(spec['dir'], spec['wrap']))
-    inc = ['-I' + REPO + '/src', '-I' + REPO, '-I' + REPO + '/include', '-I' + REPO + '/tools', '-I' + spec['dir']]
+    inc = ['-I' + REPO + '/src', '-I' + REPO, '-I' + REPO + '/include', '-I' + REPO + '/tools', '-I' + spec['dir'], '-I' + bdir]
+    gen = [os.path.join(bdir, g['to']) for g in spec.get('gen_sources', [])]
     cdir = os.path.join(ROOT, 'build', 'objcache')
     os.makedirs(cdir, exist_ok=True)
     for s in srcs:
-        key = _hash_files([s], hdr_hash + ' '.join(GXX_FLAGS))
+        key = _hash_files([s] + (gen if s.endswith(spec.get('wrap') or '\0') else []), hdr_hash + ' '.join(GXX_FLAGS))
         o = os.path.join(cdir, '%s-%s.o' % (os.path.basename(s).replace('.', '_'), key))
         if not os.path.exists(o):
             tmp = o + '.tmp%d' % os.getpid()
@@ -75,7 +76,11 @@ def build_native(ROOT, REPO, spec, entry, defines, bdir, kind, hdr_hash):
     cflags = ['-O0', '-g', '-w', '-DVERIF_NATIVE', '-DVERIF_ENTRY=' + entry['function'], '-I' + bdir, '-I' + models, '-I' + spec['dir']]
     for k, v in defines.items():
         cflags.append('-D%s=%s' % (k, v))
+    if 'ostream' in spec.get('models', []):
+        cflags.append('-DVERIF_OSTREAM_MODEL=1')
     cs = [os.path.join(spec['dir'], f) for f in spec.get('files', ['harness.c'])] + [os.path.join(models, 'native_main.c')]
+    if spec.get('autostub'):
+        cs.append(os.path.join(bdir, 'autostubs.c'))
     mods = spec.get('models', ['rt'])
     if kind == 'real':
         cflags += ['-DVERIF_NATIVE_REAL', '-fsanitize=address,undefined']
@@ -183,7 +188,9 @@ def differential(ROOT, REPO, spec, entry, defines, bdir, hdr_hash, seed, count):
         return {'status': 'real-crash', 'msg': 'real build crashed during random vectors (exit %d): %s' % (rr.returncode, (rr.stdout[-300:] + rr.stderr[-1200:]))}
     if rx.returncode != 0:
         return {'status': 'error', 'msg': 'translated build crashed (exit %d): %s' % (rx.returncode, rx.stderr[-800:])}
-    lr, lx = rr.stdout.splitlines(), rx.stdout.splitlines()
+    # result lines are prefixed '@@ ' (the real tool code may print to stdout as well)
+    lr = [l_[3:] for l_ in rr.stdout.splitlines() if l_.startswith('@@ ')]
+    lx = [l_[3:] for l_ in rx.stdout.splitlines() if l_.startswith('@@ ')]
     acc = 0
     for a, b in zip(lr, lx):
         fa, fb = a.split(), b.split()
